@@ -15,6 +15,7 @@ import (
 	"fmt"
 	"hash/fnv"
 	"sort"
+	"strings"
 	"testing"
 
 	"github.com/ethereum/go-ethereum/common"
@@ -241,6 +242,53 @@ func (r *c07Run) modify(tr *Trie) {
 	}
 }
 
+var c07Modes = []string{"ops", "ops", "ops", "bulk", "wipe", "wipe", "churn", "subtree", "subtree", "noop"}
+
+// copyPhase optionally takes Trie.Copy() after the generation's first modifications,
+// optionally modifies the side that will be thrown away (with a throw-away model, to
+// expose state shared between the two tries), optionally continues modifying the side
+// that will be committed, and returns the trie to commit: the copy or the original.
+func (r *c07Run) copyPhase(tr *Trie) *Trie {
+	rt := r.rt
+	switch rapid.SampledFrom([]string{"none", "none", "commit-copy", "commit-copy", "commit-original"}).Draw(rt, "copyPhase") {
+	case "none":
+		return tr
+	case "commit-copy":
+		r.labels["commit-copy"] = true
+		r.desc.Write([]byte("cc"))
+		return r.diverge(tr.Copy(), tr)
+	default:
+		r.labels["commit-original-after-copy"] = true
+		r.desc.Write([]byte("co"))
+		return r.diverge(tr, tr.Copy())
+	}
+}
+
+func (r *c07Run) diverge(keep, drop *Trie) *Trie {
+	rt := r.rt
+	firstMode := r.mode
+	if rapid.Bool().Draw(rt, "modifyDropped") {
+		saved, col, emp, desc := r.model, r.collapse, r.emptied, r.desc
+		r.model, r.desc = r.model.clone(), fnv.New64a()
+		r.mode = rapid.SampledFrom(c07Modes).Draw(rt, "droppedMode")
+		r.modify(drop)
+		r.mode = firstMode
+		r.model, r.collapse, r.emptied, r.desc = saved, col, emp, desc
+		r.labels["dropped-side-modified"] = true
+	}
+	if rapid.Bool().Draw(rt, "modifyKept") {
+		m := rapid.SampledFrom(c07Modes).Draw(rt, "keptMode")
+		r.mode = m
+		r.modify(keep)
+		r.desc.Write([]byte(m))
+		r.mode = firstMode + "+" + m
+		r.labels["kept-side-modified-after-copy"] = true
+	} else {
+		r.mode = firstMode + "+copy"
+	}
+	return keep
+}
+
 // commitAndCheck commits tr, applies the node set to the store and evaluates the oracles.
 func (r *c07Run) commitAndCheck(tr *Trie, prevRef *reftrie.Result) {
 	rt := r.rt
@@ -250,12 +298,22 @@ func (r *c07Run) commitAndCheck(tr *Trie, prevRef *reftrie.Result) {
 			r.fail("Hash() before commit %x, reference %x", got, ref.Root)
 		}
 	}
-	if tr.uncommitted > 100 {
+	parallel := false
+	if _, ok := tr.root.(*fullNode); ok && tr.uncommitted > 100 {
+		parallel = true
 		r.labels["parallel-commit"] = true
 	}
 	root, set := tr.Commit(rapid.Bool().Draw(rt, "collectLeaf"))
 	if root != common.Hash(ref.Root) {
 		r.fail("Commit returned root %x, reference root of the %d-entry model %x", root, len(r.model), ref.Root)
+	}
+	if parallel && set != nil && len(r.model) > 0 {
+		for _, n := range set.Nodes {
+			if n.IsDeleted() {
+				r.labels["parallel-commit-with-deletions"] = true
+				break
+			}
+		}
 	}
 	if set == nil {
 		r.labels["nil-set"] = true
@@ -350,7 +408,7 @@ func c07History(rt *rapid.T, st *vs.S) {
 	for r.gen = 0; r.gen <= gens; r.gen++ {
 		r.mode = "base"
 		if r.gen > 0 {
-			r.mode = rapid.SampledFrom([]string{"ops", "ops", "ops", "bulk", "wipe", "wipe", "churn", "subtree", "subtree", "noop"}).Draw(rt, "mode")
+			r.mode = rapid.SampledFrom(c07Modes).Draw(rt, "mode")
 		}
 		r.collapse, r.emptied = false, false
 		prevRef := vtaRef(r.model)
@@ -360,9 +418,12 @@ func c07History(rt *rapid.T, st *vs.S) {
 		}
 		r.modify(tr)
 		h.Write([]byte(r.mode))
+		if r.gen > 0 {
+			tr = r.copyPhase(tr)
+		}
 		r.commitAndCheck(tr, prevRef)
 		if r.gen > 0 {
-			r.labels["mode-"+r.mode] = true
+			r.labels["mode-"+strings.SplitN(r.mode, "+", 2)[0]] = true
 			if r.collapse {
 				r.labels["collapse"] = true
 			}
